@@ -15,7 +15,7 @@ import json, os, random, re
 from vcheck import Infra, log, VERIF
 
 PKG = "coordinator"
-FILES = ["coordinator/zz_verif_wire_test.go", "coordinator/zz_verif_wirecodec_test.go"]
+FILES = ["coordinator/zz_verif_wire_test.go", "coordinator/zz_verif_wirecodec_test.go", "coordinator/zz_verif_wirereal_test.go"]
 GOENV = {"GOFLAGS": "-mod=mod -exec=" + os.path.join(VERIF, "lib", "netns_exec.sh"), "GOMAXPROCS": "4"}
 
 RAWLV = ["writeShard", "executeStatement"]
@@ -68,18 +68,28 @@ def model_checking(ctx, sd, rnd):
                 raise Infra("vacuity: %s is not reachable in the model" % probe)
 
 
+PAYS = ["none", "valid", "validU", "edge", "badenv", "badcontent", "short", "bare", "empty", "embedded"]
+
+
 def generate(ctx, sd, rnd):
-    def gen(label, types, frames, hdr=("coord",), ends=("half", "disconnect")):
+    def gen(label, types, frames, hdr=("coord",), ends=("half", "disconnect"), ftypes=None, fpays=None):
         ctx.write_cfg(sd, "G%s.cfg" % label, "GSpec",
-                      {"Types": q(types), "MaxFrames": frames, "Dev": [], "GenHdr": q(hdr), "GenEnds": q(ends)},
+                      {"Types": q(types), "MaxFrames": frames, "Dev": [], "GenHdr": q(hdr), "GenEnds": q(ends),
+                       "FollowTypes": q(ftypes or types), "FollowPays": q(fpays or PAYS)},
                       extra="INVARIANT Emit")
         return ctx.tlc_generate(sd, "WireGen", "G%s.cfg" % label, exhaustive=True, timeout=1500, workers=4)
     reps = representatives(rnd)
+    # every type x every frame class alone (all mux headers) ...
     behs = gen("all1", ALL, 1, hdr=("coord", "other", "nothing"))
     n1 = len(behs)
     if ctx.quick():
-        more = gen("rep2", reps, 2)
-        label = "every type x every frame class alone; <=2 frames over %s" % reps
+        # ... every frame of every type after which the server keeps reading, followed by one valid request
+        # (a frame that was passed over instead of answered shows only when something follows it) ...
+        follow = rnd.choice(["tagKeys", "measurementNames", "writeShard", "mapType"])
+        more = gen("all2f", ALL, 2, ends=("half",), ftypes=[follow], fpays=["valid"])
+        # ... and every connection of <=2 frames over one representative per handler kind
+        more += gen("rep2", reps, 2)
+        label = "every type x every frame class alone and followed by a valid %s request; <=2 frames over %s" % (follow, reps)
         exhaustive = False
     else:
         more = gen("rep3", reps, 3) + gen("all2", ALL, 2)
@@ -105,7 +115,9 @@ def panic_signature(out):
     m = PANIC_RE.search(out)
     if not m:
         return None, None
-    first = out[m.end():].split("\n\n")[0] + out[m.end():].split("\n\n", 2)[1] if "\n\n" in out[m.end():] else out[m.end():]
+    # the panicking goroutine is printed first: a panic on the test's own goroutine is a defect of the harness
+    first = out[m.end():].split("\n\ngoroutine ", 2)
+    first = first[1] if len(first) > 1 else out[m.end():]
     if "testing.tRunner" in first or "[recovered]" in m.group(1):
         raise Infra("the harness itself panicked:\n%s" % out[m.start():][:3000])
     msg = re.sub(r"0x[0-9a-f]+|\d{3,}", "N", m.group(1))[:100]
@@ -127,7 +139,14 @@ def replay(ctx, behs, maxm1):
     def run(bs, label, skip=(), only=0, m1=None):
         p = ctx.write_json("wire-%s-%d.json" % (label, len(os.listdir(ctx.scratch))),
                            {"behaviours": bs, "skip": list(skip), "maxm1": maxm1 if m1 is None else m1, "onlyframes": only})
-        return ctx.go_test(PKG, FILES, "^TestVerifWireReplay$", env=dict(GOENV, VERIF_IN=p), timeout=3000, label=label)
+        env = dict(GOENV, VERIF_IN=p)
+        if any(f["lenc"] == "maxm1" for b in bs for f in frames_of(b)):
+            # a frame that announces MaxMessageSize-1 bytes makes the node allocate 1 GiB.  Touching a gigabyte of
+            # fresh memory takes up to a minute in this sandbox (measured), and Go touches (zeroes) a large span only
+            # when it re-uses one: with the collector off every such buffer is fresh address space that nobody
+            # touches.  These connections therefore run in a binary of their own.
+            env["GOGC"] = "off"
+        return ctx.go_test(PKG, FILES, "^TestVerifWireReplay$", env=env, timeout=3000, label=label)
 
     def died(recs, out):
         return not any(r.get("k") == "done" for r in recs) and panic_signature(out)[0] is not None
@@ -201,6 +220,45 @@ def replay(ctx, behs, maxm1):
     raise Infra("more than 10 distinct crash classes")
 
 
+def realstore(ctx, only=None):
+    """The frame classes whose effect depends on the storage layer, against a real tsdb.Store."""
+    def run(label, skip=(), only=None):
+        env = dict(GOENV, VERIF_SKIP=",".join(skip))
+        if only:
+            env["VERIF_ONLY"] = only
+        return ctx.go_test(PKG, FILES, "^TestVerifWireRealStore$", env=env, timeout=900, label=label)
+
+    def confirm(rp):
+        recs, out, rc = run("real-confirm", only=rp["case"])
+        return not any(r.get("k") == "done" for r in recs) or any(r.get("k") == "mismatch" for r in recs)
+
+    skip, cases = [], 0
+    for _ in range(6):
+        recs, out, rc = run("realstore", skip, only)
+        if any(r.get("k") == "done" for r in recs):
+            d = ctx.process(recs, out, rc, "TestVerifWireRealStore", confirm)
+            return cases + d.get("cases", 0)
+        sig, line = panic_signature(out)
+        fl = [r["id"] for r in recs if r.get("k") == "inflight"]
+        if sig is None or not fl:
+            raise Infra("driver TestVerifWireRealStore died without a panic (rc=%s):\n%s" % (rc, out[-3000:]))
+        r2, o2, c2 = run("real-crash-confirm", only=fl[-1])
+        if any(r.get("k") == "done" for r in r2):
+            raise Infra("the test binary died (%s) in case %s, but not when it was re-run alone" % (line, fl[-1]))
+        sig, line = panic_signature(o2)
+        log("handler panic with the real store, case %s: %s" % (fl[-1], line))
+        ctx.report_mismatch(sig, "the node process died serving the request of case %s against a real tsdb.Store:\n%s"
+                            % (fl[-1], o2[o2.find(line):][:1800]), {"test": "realstore", "case": fl[-1]})
+        for r in recs:
+            if r.get("k") == "mismatch":
+                ctx.report_mismatch(r["sig"], r.get("detail"), r.get("replay"))
+        skip.append(fl[-1])
+        cases += len(fl) - 1
+        if only:
+            return cases
+    raise Infra("real store driver keeps dying")
+
+
 def patterns(ctx, sd, rnd):
     def gen(label, spec, consts):
         ctx.write_cfg(sd, "P%s.cfg" % label, spec, consts, extra="INVARIANT Emit")
@@ -244,6 +302,8 @@ def run(ctx):
         kind = rp.get("test")
         if kind == "replay":
             replay(ctx, [dict(rp["behaviour"], id=rp["behaviour"].get("id", 1))], 9)
+        elif kind == "realstore":
+            realstore(ctx, only=rp["case"])
         elif kind == "roundtrip":
             codec_single(ctx, "TestVerifWireRoundTrip", {"messages": [rp["message"]]})
         elif kind == "stream":
@@ -254,8 +314,24 @@ def run(ctx):
 
     model_checking(ctx, sd, rnd)
     behs, label, exhaustive = generate(ctx, sd, rnd)
-    tot = replay(ctx, behs, ctx.pick(10, 90))
+    # connections with a frame that announces MaxMessageSize-1 bytes run apart (see replay.run), a seeded sample
+    big = [b for b in behs if any(f["lenc"] == "maxm1" for f in frames_of(b))]
+    rest = [b for b in behs if not any(f["lenc"] == "maxm1" for f in frames_of(b))]
+    rnd.shuffle(big)
+    nbig = ctx.pick(8, 40)
+    tot = replay(ctx, rest, 0)
+    tot_big = replay(ctx, big[:nbig], nbig)
+    for k, v in tot_big.items():
+        if isinstance(v, dict):
+            for kk, vv in v.items():
+                tot.setdefault(k, {})[kk] = tot.get(k, {}).get(kk, 0) + vv
+        elif k.startswith("max_"):
+            tot[k] = max(tot.get(k, 0), v)
+        else:
+            tot[k] = tot.get(k, 0) + v
+    tot["skipped_maxm1_budget"] = len(big) - min(nbig, len(big))
     ctx.cov["traces_validated_against_impl"] += tot.get("behaviours", 0)
+    real_cases = realstore(ctx)
     msgs, pts = patterns(ctx, sd, rnd)
     d1, d2 = codec(ctx, msgs, pts)
     ctx.cov["exhaustive"] = exhaustive
@@ -266,7 +342,7 @@ def run(ctx):
         "reactions_observed": tot.get("reactions", {}), "crash_rounds": tot.get("crash_rounds", 0),
         "skipped_crash_class": tot.get("skipped_crash_class", 0), "skipped_maxm1_budget": tot.get("skipped_maxm1_budget", 0),
         "max_alloc_delta_bytes": tot.get("max_alloc_delta", 0), "max_alloc_delta_bytes_maxm1_frames": tot.get("max_alloc_delta_maxm1", 0),
-        "generation": label,
+        "generation": label, "real_store_cases": real_cases,
         "message_patterns": d1.get("patterns", 0), "message_types": d1.get("message_types", 0),
         "message_patterns_held": d1.get("held", 0), "point_patterns": d2.get("points", 0), "point_streams": d2.get("streams", 0),
         "point_patterns_held": d2.get("held", 0),
